@@ -533,6 +533,10 @@ class PipeOps(FullOps):
                          lo_origin=sorted(lo.origin) if isinstance(lo, TV) else None, hi_origin=sorted(hi.origin) if isinstance(hi, TV) else None,
                          lo_note=lo.note if isinstance(lo, TV) else None, hi_note=hi.note if isinstance(hi, TV) else None)
                 out = out.but(layout=tuple(l for l in out.layout if l[0] != pos), alias=True)
+                if pos == 0 and lay and len(parts) == 1 and self.poly_of(lo) is not None and self.poly_of(hi) is not None:
+                    # a slice [lo:hi) of a packed vector: remembered, so that `diag` of it written into rows [lo:hi) of a zero buffer is recognised as a block of columns of diag(vector)
+                    self._slices = getattr(self, "_slices", {})
+                    self._slices[id(out)] = (out, self.poly_of(lo), self.poly_of(hi), lay[0], t.origin)
                 if pos == 0 and self.inst is not None:
                     sp = self.rows_of(t)
                     cl = None if lo is None else self.const_int(lo)
@@ -585,6 +589,14 @@ class PipeOps(FullOps):
             self.pev("inplace", st, alias=tv.alias, target="subscript", target_note=tv.note, target_origin=sorted(tv.origin))
             it = tv_of(idx[1]) if idx and idx[0] == "index" else None
             vt = tv_of(v)
+            blk = getattr(self, "_slices", {}).get(id(vt)) if vt is not None else None
+            if blk is not None and len(blk) == 6 and blk[0] is vt and not aug and tv.note in ("zeros", "new_zeros") and tv.axes and tv.axes[0] == "R" and idx and idx[0] == "slice":
+                lo_, hi_ = (None if isinstance(x, Const) and x.v is None else x for x in idx[1:3])
+                same = lo_ is not None and hi_ is not None and self.poly_of(self.psum_note(lo_)) == blk[1] and self.poly_of(self.psum_note(hi_)) == blk[2]
+                # zeros((n, hi - lo)); buf[lo:hi] = diag(v[lo:hi]): the columns [lo:hi) of diag(v) — rows outside [lo:hi) stay zero
+                self.pev("diag", st, layout=[repr((0,) + tuple(blk[3][1:]))] if same else [], block=True, rows_match=bool(same))
+                if same:
+                    return tv.but(layout=((0, blk[3][1], blk[3][2]),), origin=tv.origin | blk[4], alias=False, note="diag-block")
             enum_ = next((l[1] for l in (it.layout if isinstance(it, TV) else ()) if l[0] == "enum"), None)
             if not aug and tv.note in ("zeros", "empty") and tv.axes and tv.axes[0] == "R" and enum_ is not None and isinstance(vt, TV):
                 # buf = zeros((n,) + shape); for i, x in enumerate(xs): buf[i] = f(x)  —  row i of buf is f(xs[i]): torch.stack over xs, rows never written staying zero
@@ -684,6 +696,11 @@ class PipeOps(FullOps):
             sp_ = self.rows_of(t) if (self.inst is not None and t.rowspan is None and name == "squeeze" and d == 0) else t.rowspan
             return t.but(layout=lay, axes=axes, rowspan=sp_)  # (instance runs: the single row carried stays known after the axis is gone)
         if name == "diag":
+            sl_ = getattr(self, "_slices", {}).get(id(t))
+            if sl_ is not None and sl_[0] is t and not t.layout:
+                r_ = t.but(axes=("R", Q), alias=False)
+                self._slices[id(r_)] = (r_, sl_[1], sl_[2], sl_[3], sl_[4], "diag")
+                return r_  # diag(v[lo:hi]): a diagonal block; what it means depends on where it is stored (tensor_store)
             lay = tuple((ax, l[1], l[2]) for l in t.layout if l[0] == 0 for ax in (0, 1))
             self.pev("diag", node, layout=[repr(l) for l in t.layout])
             return t.but(layout=lay, axes=("R", Q), alias=False)
